@@ -61,6 +61,12 @@ func chainOf(p any) (names []string, fp any, err error) {
 			name += "(" + strField(v, "Op") + ")"
 		case "UnwrapPlanner":
 			name += "(" + strField(v, "Label") + ")"
+		case "ParserPlanner":
+			name += "(" + strField(v, "Op") + ")"
+		case "PlannerDrop":
+			name += "(" + strings.Join(v.FieldByName("Labels").Interface().([]string), ",") + ")"
+		case "QuantilePlanner":
+			name += "(" + strconv.FormatFloat(v.FieldByName("Param").Float(), 'g', -1, 64) + ")"
 		}
 		names = append([]string{name}, names...)
 		next := fieldIface(v, "Main")
@@ -152,6 +158,9 @@ func writtenStages(s *logql_parser.LogQLScript, shortcut bool) (matrix []string,
 	if agg != nil {
 		if g := groupingName(agg.ByOrWithoutPrefix, agg.ByOrWithoutSuffix); g != "" {
 			matrix = append(matrix, g)
+		} else {
+			// no grouping clause = by (): everything into the series of the empty label set
+			matrix = append(matrix, "ByWithoutPlanner(true:)")
 		}
 		matrix = append(matrix, "AggOpPlanner("+agg.Fn+")")
 		cmp(agg.Comparison)
